@@ -26,14 +26,22 @@ for s in seeds:
         print(s, 'PATCH DOES NOT APPLY')
         continue
     caught = {}
-    for pid in claimed:
+
+    def one(pid):
         out = subprocess.run([V + '/check', pid, 'quick'], capture_output=True, text=True, cwd=V)
         if out.returncode == 2:
-            caught[pid] = ['BUILD-FAILED']
-            continue
-        keys = [l.split('key=')[1].split(' at ')[0] for l in out.stdout.splitlines() if l.strip().startswith('rule=') and 'key=' in l]
-        if keys:
-            caught[pid] = keys
+            return pid, ['BUILD-FAILED']
+        return pid, [l.split('key=')[1].split(' at ')[0] for l in out.stdout.splitlines() if l.strip().startswith('rule=') and 'key=' in l]
+    # the seed's own property first (it builds the facts of the patched tree), the others in parallel
+    order = [meta['property']] if meta['property'] in claimed else []
+    pid0, keys0 = one(order[0]) if order else (None, [])
+    if keys0:
+        caught[pid0] = keys0
+    from concurrent.futures import ThreadPoolExecutor
+    with ThreadPoolExecutor(max_workers=10) as ex:
+        for pid, keys in ex.map(one, [p for p in claimed if p not in order]):
+            if keys:
+                caught[pid] = keys
     subprocess.run(['git', '-C', '/repo', 'reset', '-q', '--hard', 'HEAD'])
     subprocess.run(['git', '-C', '/repo', 'reset', '-q'])
     res[s] = {'property': meta['property'], 'applies': True, 'caught_by': caught,
@@ -41,6 +49,7 @@ for s in seeds:
     print(s, 'caught by', caught if caught else 'NOTHING')
     json.dump(res, open(V + '/seeded/RESULTS.json', 'w'), indent=1)
 # restore evidence files to the unchanged tree
-for pid in claimed:
-    subprocess.run([V + '/check', pid, 'quick'], capture_output=True, text=True, cwd=V)
+from concurrent.futures import ThreadPoolExecutor
+with ThreadPoolExecutor(max_workers=10) as ex:
+    list(ex.map(lambda pid: subprocess.run([V + '/check', pid, 'quick'], capture_output=True, text=True, cwd=V), claimed))
 json.dump(res, open(V + '/seeded/RESULTS.json', 'w'), indent=1)
